@@ -79,3 +79,45 @@ Theorem C14_any_single_array_gap_accepted :
   let schema := CStruct false [({| fl_name := bs "a"; fl_form := FRegular |}, CStr)] in let r := validate_top schema [] (call_path [bs "a"] (Func false (bs "First") [] (bs "First()"))) in v_has_errors r = false /\ v_type r = Some (PT_String, IO_Single).
 Proof. exact Mpath.Proofs.C14.C14_any_single_array_gap_accepted. Qed.
 Print Assumptions C14_any_single_array_gap_accepted.
+
+(** Chains of calls (Proofs/C14b.v): `$.k….F1(a1).F2(a2)…Fn(an)` with literal arguments.  The receiver
+    of call i+1 is what call i returns, so its type is the type reported for call i:
+    [chain_types] / [chain_accepts] are what validation computes along the chain, and an accepted
+    conformant chain evaluated on conforming data gives a value of the type reported for its last call
+    or a data-dependent error, never a wrong-type failure — for every n, with element-returning
+    functions (First / Last / Index) in any position (the side condition that confined them to the
+    first position was the finding repaired by 5a651fc).  [chain_side] carries the hypotheses that
+    cannot be derived for intermediate values (the 2^63 length guard of the slicers, and that an
+    intermediate STRING is not a numeral: the recorded finding, C14b_numeral_intermediate_refuted). *)
+From Mpath.Proofs Require C14b.
+Import Mpath.Proofs.C14b.
+
+Theorem C14_chain_reported_type :
+  forall (tbl : list fdesc) (schema : cty) (k : str) (ks : list str) (fs : list func) (us : str) (prev : ptype * iotype), wf_schema schema = true -> walk schema (k :: ks) = Accept prev -> exists v : cty, find_value_at_path schema (k :: ks) = Some v /\ kind_of v = prev /\ wf v = true /\ (let r := validate_top_gen tbl schema [] (chain_path (k :: ks) fs us) in v_err r = false /\ v_type r = chain_types tbl v (Some prev) fs /\ (chain_wellposed tbl schema [] (k :: ks) v prev fs -> v_has_errors r = false <-> chain_accepts tbl v prev fs = true)).
+Proof. exact Mpath.Proofs.C14b.C14b_chain_reported_type. Qed.
+Print Assumptions C14_chain_reported_type.
+
+Theorem C14_chain_sound :
+  forall (uni : Lexer.uclass) (eng : engines) (schema : cty) (k : str) (ks : list str) (fs : list func) (us : str) (cs : list rcall) (prev : ptype * iotype) (v : cty) (doc g : gv), wf_schema schema = true -> walk schema (k :: ks) = Accept prev -> find_value_at_path schema (k :: ks) = Some v -> fs <> [] -> all_some (map call_of fs) = Some cs -> forallb (fun c : rcall => rconform (fd_params (fst c)) (snd c)) cs = true -> chain_accepts func_table v prev fs = true -> key_walk (k :: ks) doc g -> has_type g prev -> plain_strings g -> chain_side eng cs g -> let q := chain_path (k :: ks) fs us in let o := Eval.do_top uni eng q doc in let ty := chain_rtype v prev (map fst cs) in v_type (validate_top schema [] q) = Some ty /\ np o /\ typed_outcome o ty.
+Proof. exact Mpath.Proofs.C14b.C14b_chain_sound. Qed.
+Print Assumptions C14_chain_sound.
+
+Theorem C14_chain_sound_cue :
+  forall (uni : Lexer.uclass) (eng : engines) (schema : cty) (k : str) (ks : list str) (fs : list func) (us : str) (cs : list rcall) (prev : ptype * iotype) (v : cty) (doc g : gv), wf_schema schema = true -> walk schema (k :: ks) = Accept prev -> find_value_at_path schema (k :: ks) = Some v -> fs <> [] -> all_some (map call_of fs) = Some cs -> forallb (fun c : rcall => rconform (fd_params (fst c)) (snd c)) cs = true -> lit_wellposed v prev fs = true -> let q := chain_path (k :: ks) fs us in v_has_errors (validate_top schema [] q) = false -> key_walk (k :: ks) doc g -> has_type g prev -> plain_strings g -> chain_side eng cs g -> let o := Eval.do_top uni eng q doc in let ty := chain_rtype v prev (map fst cs) in v_type (validate_top schema [] q) = Some ty /\ np o /\ typed_outcome o ty.
+Proof. exact Mpath.Proofs.C14b.C14b_chain_sound_cue. Qed.
+Print Assumptions C14_chain_sound_cue.
+
+Theorem C14_chain_sound_side_free :
+  forall (uni : Lexer.uclass) (eng : engines) (schema : cty) (k : str) (ks : list str) (fs : list func) (us : str) (cs : list rcall) (prev : ptype * iotype) (v : cty) (doc g : gv), wf_schema schema = true -> walk schema (k :: ks) = Accept prev -> find_value_at_path schema (k :: ks) = Some v -> fs <> [] -> all_some (map call_of fs) = Some cs -> forallb (fun c : rcall => rconform (fd_params (fst c)) (snd c)) cs = true -> side_free cs = true -> chain_accepts func_table v prev fs = true -> key_walk (k :: ks) doc g -> has_type g prev -> plain_strings g -> let q := chain_path (k :: ks) fs us in let o := Eval.do_top uni eng q doc in let ty := chain_rtype v prev (map fst cs) in v_type (validate_top schema [] q) = Some ty /\ np o /\ typed_outcome o ty.
+Proof. exact Mpath.Proofs.C14b.C14b_chain_sound_side_free. Qed.
+Print Assumptions C14_chain_sound_side_free.
+
+Theorem C14_asarray_first_repaired :
+  has_type (jarr [jstr "x"; jstr "y"]) (PT_String, IO_Array) /\ plain_strings (jarr [jstr "x"; jstr "y"]) /\ val "$.ls.AsArray().First()" = accepted AnyS /\ val "$.ln.AsArray().Last()" = accepted AnyS /\ val "$.ls.AsArray().First().Left(1)" = Some (Ok {| v_err := false; v_has_errors := true; v_type := Some SS; v_errs := [EWrongReceiverType] |}) /\ val "$.ln.AsArray().Last().Add(1)" = Some (Ok {| v_err := false; v_has_errors := true; v_type := Some NS; v_errs := [EWrongReceiverType] |}) /\ (let fs2 := [Func false (bs "AsArray") [] (bs "AsArray()"); Func false (bs "First") [] (bs "First()")] in let fs3 := fs2 ++ [Func false (bs "Left") [FPNum {| coef := 1; dexp := 0 |}] (bs "Left(1)")] in parse_string Lexer.uni_ascii (bs "$.ls.AsArray().First().Left(1)") = Ok (chain_path [bs "ls"] fs3 (bs "$.ls.AsArray().First().Left(1)")) /\ chain_accepts func_table (CList true CStr) (PT_String, IO_Array) fs2 = true /\ chain_types func_table (CList true CStr) (Some (PT_String, IO_Array)) fs2 = Some AnyS /\ chain_accepts func_table (CList true CStr) (PT_String, IO_Array) fs3 = false /\ lit_wellposed (CList true CStr) (PT_String, IO_Array) fs3 = true) /\ run "$.ls.AsArray().First()" ex_doc = Some (Ok (jarr [jstr "x"; jstr "y"])) /\ typed_outcome (Ok (jarr [jstr "x"; jstr "y"])) AnyS /\ (exists e : err, run "$.ls.AsArray().First().Left(1)" ex_doc = Some (Err e) /\ wrong_type_err e = true) /\ (exists e : err, run "$.ln.AsArray().Last().Add(1)" ex_doc = Some (Err e) /\ wrong_type_err e = true).
+Proof. exact Mpath.Proofs.C14b.C14b_asarray_first_repaired. Qed.
+Print Assumptions C14_asarray_first_repaired.
+
+Theorem C14_numeral_intermediate_refuted :
+  let doc := jobj [("s", jstr "12ab")] in has_type (jstr "12ab") SS /\ plain_strings (jstr "12ab") /\ val "$.s.Left(2).Contains(""1"")" = accepted BS /\ run "$.s.Left(2)" doc = Some (Ok (jstr "12")) /\ (exists e : err, run "$.s.Left(2).Contains(""1"")" doc = Some (Err e) /\ wrong_type_err e = true).
+Proof. exact Mpath.Proofs.C14b.C14b_numeral_intermediate_refuted. Qed.
+Print Assumptions C14_numeral_intermediate_refuted.
